@@ -30,6 +30,47 @@ CLAIMS = {
     ),
 }
 
+CLAIMS.update({
+    'C01': (
+        'operator tables and sibling gate tables folded by a finite-domain evaluator and compared with an oracle; evaluator shape rules',
+        'Decides: (SEM-OP) the two-valued restriction of every operator in operators.py equals the fixed Boolean function of its type on every operand tuple '
+        'of arity 1/2 and 2..4 (2..6 thorough), including that NAND/NOR/NXOR negate the fold; (SEM-REG) the 19 GateType constants carry their own name, the right '
+        'operator and a sound is_symmetric flag; (SEM-SIB) every other interpreter of a gate type - Operation codes, _tt_to_gate_type, binary_tt_to_type/add_gate_from_tt, '
+        'the bit-parallel pattern simulator, the Tseytin templates, the bench rewrites - denotes that same function (exhaustive over the finite table domains); '
+        '(APPLY) both evaluators apply g.operator to the values of g.operands in operand order from one assignment map, inputs are bound by position, results are '
+        'collected in output order and every truth-table enumeration is product((False, True)). Not decided: termination/ordering of the explicit-stack evaluator '
+        'on arbitrary DAGs (relies on C20).',
+        'DESIGN.md 4 C01',
+    ),
+    'C02': (
+        'folding of the representation primitives over label-equality patterns + package-wide write-site enumeration, guard-before-write and fresh-container rules',
+        'Inductive preservation of the well-formedness invariant, per function that writes the representation: (IDX) _add_gate/_emplace_gate/_remove_gate/'
+        'rename_gate/replace_inputs/Block._rename_gate and all bench rewrites are folded over model states that cover every equality pattern of operand tuples '
+        'up to length 3 and every membership pattern (input/output twice/block member/used twice) and must re-establish: operands and outputs name gates, users '
+        'index = inverse operand multiset, input list = INPUT gates, blocks name existing gates (rename must equal label substitution); every other write to a gate '
+        'map / users index anywhere under cirbo/ must match a recognised paired shape; (VALID) each public mutator validates each label parameter on a raising '
+        'path before its first write; (COPY) no store into circuit state aliases a parameter, Block lists are fresh, __copy__ builds through copying APIs; (ACYC) '
+        'operand re-pointing ends in the cycle check. Not decided: top_sort/dfs/order_list correctness, equality of a copy beyond same constructor calls.',
+        'DESIGN.md 4 C02',
+    ),
+    'C14': (
+        'bench rewrites folded over a recording circuit model for all operand patterns and input values',
+        'Decided at the level of the rewrites: the converter table covers every non-bench type; each rewrite, evaluated on a model circuit for operands distinct / identical / '
+        'involving the first input and all input values, denotes the old type, emits only bench-basis types, leaves users index = inverse operand multiset, and adds its helper '
+        'gate to exactly the blocks containing the rewritten gate; constants obtain their helper input through input_at_index (raises without inputs); into_bench iterates a snapshot. '
+        'Together with C02 this is the whole statement; assumes constants carry no operands.',
+        'DESIGN.md 4 C14',
+    ),
+    'C15': (
+        'exhaustive enumeration of the three-valued operator tables extracted from the syntax tree; defaulting-loop shape rule',
+        'Completely decided at operator level: for every operator and every operand tuple over {False, True, Undefined} up to arity 3 (4 thorough; covers the fold composition of n-ary gates) '
+        'a defined result equals the result under every completion of the undefined operands (soundness, hence monotonicity) and total operands give a defined result; both evaluators default '
+        'unassigned inputs to Undefined on a copy of the assignment and gate values flow only through operators (C01.APPLY). Soundness of the composition follows by induction over the DAG. '
+        'Not decided: the traversal clause shared with C01.',
+        'DESIGN.md 4 C15',
+    ),
+})
+
 PENDING = 'check under construction in this session (see DESIGN.md section 4); not claimed until its rules run clean'
 
 ALL = [f'C{i:02d}' for i in range(1, 21)]
